@@ -19,7 +19,16 @@ MISSED6 = {"C19/1": "the restart step waited for the old serving task to be done
 MISSED7 = {k: "initially missed - needs a size/value beyond what the runs reached; caught after the scale extensions (BigGen, ScaleGen thresholds around 64..1500/4100, threshold placement sweeps, queue/control scale families; see DESIGN.md section 8, round 7)" for k in
            ["C08/1", "C08/2", "C06/2", "C14/1", "C14/2", "C07/1", "C07/2", "C09/1", "C09/2", "C01/1", "C01/2", "C02/1", "C02/2", "C12/1", "C13/2", "C15/1", "C15/2",
             "C16/1", "C16/2", "C17/1", "C17/2", "C18/1", "C18/2", "C19/1", "C19/2", "C20/1", "C20/2"]}
-MISSED = MISSED7 if ROUND == 7 else MISSED6 if ROUND == 6 else {} if ROUND != 5 else {"C01/1": "the pool generator never assigned pool_size to an empty pool; added the resize_idle step (size assigned while the pool is empty, all C01 oracles continue with the new size)",
+MISSED8 = {"C03/2": "lives in what used to be an excluded zone (a worker that requests its own cancellation in its last statement and returns); C03 runs now explore it when the end callback cannot suspend (see DESIGN.md section 8, round 8)",
+           "C04/1": "the after-cancel oracles (call/task after the group was cancelled) were tagged C07 only; for apply/start requests they are now also C04 ('only cancelling the group stops the remainder')",
+           "C05/1": "starmap elements were tuples, one-shot iterators, empty tuples or non-iterables; str and bytes elements added (func(*'ab') is func('a','b'))",
+           "C09/1": "the argument iterables were generators (iter() of a generator is unobservable); the re-iterable container now reports an iter() made inside a request that ends up rejected",
+           "C15/2": "pool_size was never assigned after the pool had been closed; 20% of the size-family runs now close the pool and assign a negative and a valid value",
+           "C17/2": "workers did not look at Task.cancelling(); the count seen in the CancelledError handler is now part of the twin comparison (an id named twice is two requests)",
+           "C18/2": "workers never printed; 30% of the C18 runs have workers that print to the console: every line must arrive there, none in a reply",
+           "C19/1": "nothing compared the number of requests the bundled client made with what was typed; added cli_requests (blank lines are not requests) for runs in which the server is never stopped",
+           "C20/1": "blocks were left normally, by Exception or by cancellation; added exits by a BaseException that is neither, and by closing an async generator that yields inside the block (GeneratorExit)"}
+MISSED = MISSED8 if ROUND == 8 else MISSED7 if ROUND == 7 else MISSED6 if ROUND == 6 else {} if ROUND != 5 else {"C01/1": "the pool generator never assigned pool_size to an empty pool; added the resize_idle step (size assigned while the pool is empty, all C01 oracles continue with the new size)",
           "C03/2": "callbacks were always closures; added callbacks that are bound methods of an object nothing else refers to (kinds sm/am/gm)",
           "C04/1": "the injected factory failure was always a FactoryError; the exception type now varies (FactoryError, TypeError, ValueError, KeyError, AttributeError)",
           "C04/2": "payload keyword names were always kw_x; added payload shapes whose keyword names coincide with the library's own parameter names (group_name, func, num, end_callback, self, args, kwargs ...)",
